@@ -80,6 +80,10 @@ func perturb(r *rand.Rand, text string) (string, []string) {
 			if r.Intn(3) == 0 {
 				l += []string{" ", "\t", "   "}[r.Intn(3)]
 			}
+			if r.Intn(3) == 0 { // tabs as the separator between any two tokens
+				f := strings.Fields(l)
+				l = strings.Join(f, []string{"\t", "\t\t", " \t"}[r.Intn(3)])
+			}
 			lines[i] = l
 		}
 	}
@@ -341,7 +345,7 @@ func cmdLoadCorrupt(args []string) {
 		lines := strings.Split(strings.TrimSuffix(base, "\n"), "\n")
 		li := r.Intn(len(lines))
 		f := strings.Fields(lines[li])
-		switch r.Intn(12) {
+		switch r.Intn(13) {
 		case 0: // delete a field
 			if len(f) > 0 {
 				j := r.Intn(len(f))
@@ -403,6 +407,10 @@ func cmdLoadCorrupt(args []string) {
 			g := []string{"hello world", "1 2 3 4 5", ", , , , ,", "MOV.I $ 0 $ 1 2", "\x00", "MOV.I $ 0, $", "#", "DAT", ";", " ; x", "\t"}
 			pos := r.Intn(len(lines) + 1)
 			lines = append(lines[:pos:pos], append([]string{g[r.Intn(len(g))]}, lines[pos:]...)...)
+		case 11: // a very long comment or strategy line in front of the rest
+			long := strings.Repeat("x", 70000)
+			pos := r.Intn(len(lines) + 1)
+			lines = append(lines[:pos:pos], append([]string{[]string{"; ", ";strategy ", ";name "}[r.Intn(3)] + long}, lines[pos:]...)...)
 		case 10: // unterminated last line
 			emit(strings.Join(lines, "\n"), dialect, m)
 			continue
